@@ -12,11 +12,11 @@ def c09_bytes():
                 continue
             L.append("to_digits_shape!(c09_%s_to_digits_%s%d, %s, %d);" % (tier(l <= 2), "m" if neg else "p", l, str(neg).lower(), l))
     for neg in (False, True):
-        for nb in (1, 2, 3, 8, 9, 16):
+        for nb in (1, 2, 3, 8, 9, 16, 17):
             for be in (False, True):
-                q = nb in (1, 2, 8, 9) and (not be or nb in (2, 9))
-                L.append("to_signed_bytes_shape!(c09_%s_to_signed_bytes_%s_%s%d, %s, %d, %d, tbl_%d, tbb_%d, %s);" % (
-                    tier(q), "be" if be else "le", "m" if neg else "p", nb, str(neg).lower(), nb, nb // 8 + 2, nb, nb, str(be).lower()))
+                q = nb in (1, 2, 8, 9, 16) and (not be or nb in (2, 9, 16))
+                L.append("to_signed_bytes_shape!(c09_%s_to_signed_bytes_%s_%s%d, %s, %d, %d, %d, tbl_%d, tbb_%d, %s);" % (
+                    tier(q), "be" if be else "le", "m" if neg else "p", nb, str(neg).lower(), nb, (nb + 7) // 8, (nb + 7) // 8 + 1, nb, nb, str(be).lower()))
     for n in range(0, 8):
         L.append("from_u32_shape!(c09_%s_from_u32_%d, %d, %d);" % (tier(n in (0, 1, 2, 3, 5)), n, n, n // 2 + 1))
     return L
